@@ -24,6 +24,11 @@ type c14uCase struct {
 	NumConn int
 	Clients [][]int // per proxy client (own UDP source address): datagram sizes, sent in order
 	Echo    bool    // the proxy server echoes every datagram back
+	// Stall > 0 (needs >= 2 clients): after every client's first datagram has gone through, the tunnel connection that
+	// carries client 0 (NumConn <= 0) resp. the session's first connection stops draining for Stall milliseconds with
+	// a full send buffer - a congested path - while client 0 sends the rest of its datagrams and the other clients
+	// theirs; then it recovers. Nothing is closed and no error occurs anywhere.
+	Stall int
 }
 
 func c14uPayload(clientIdx, k, n int) []byte {
@@ -133,8 +138,59 @@ func c14uRun(sc c14uCase) (vk.Result, error) {
 			}
 		}(p)
 	}
+	received := func() int {
+		mu.Lock()
+		defer mu.Unlock()
+		n := 0
+		for _, l := range byPeer {
+			n += len(l)
+		}
+		return n
+	}
+	stalled := false
+	if sc.Stall > 0 && len(clis) >= 2 {
+		// first datagrams one client after the other, each awaited at the proxy server: the tunnel connections are
+		// created in client order (patience only; if one does not arrive the case runs without the stall)
+		ok := true
+		for i, p := range clis {
+			p.conn.Write(p.sent[0])
+			for dl := time.Now().Add(3 * time.Second); received() < i+1; time.Sleep(2 * time.Millisecond) {
+				if time.Now().After(dl) {
+					ok = false
+					break
+				}
+			}
+		}
+		links := srv.net.All()
+		if ok && len(links) > 0 {
+			stalled = true
+			l := links[0]
+			l.SetAuto(vk.AtoB, false)
+			l.SetLimit(vk.AtoB, 1)
+			for k := 1; k < len(clis[0].sent); k++ {
+				clis[0].conn.Write(clis[0].sent[k])
+			}
+			time.Sleep(5 * time.Millisecond)
+			for k := 1; ; k++ {
+				any := false
+				for _, p := range clis[1:] {
+					if k < len(p.sent) {
+						any = true
+						p.conn.Write(p.sent[k])
+					}
+				}
+				if !any {
+					break
+				}
+				time.Sleep(200 * time.Microsecond)
+			}
+			time.Sleep(time.Duration(sc.Stall) * time.Millisecond)
+			l.SetLimit(vk.AtoB, 0)
+			l.SetAuto(vk.AtoB, true)
+		}
+	}
 	// send, interleaving the clients
-	for k := 0; ; k++ {
+	for k := 0; !stalled; k++ {
 		any := false
 		for _, p := range clis {
 			if k < len(p.sent) {
@@ -150,13 +206,7 @@ func c14uRun(sc c14uCase) (vk.Result, error) {
 	// patience: until everything expected has arrived or nothing moves any more (not a verdict)
 	deadline := time.Now().Add(4 * time.Second)
 	for time.Now().Before(deadline) {
-		mu.Lock()
-		n := 0
-		for _, l := range byPeer {
-			n += len(l)
-		}
-		mu.Unlock()
-		if n >= total {
+		if received() >= total {
 			break
 		}
 		time.Sleep(20 * time.Millisecond)
@@ -236,6 +286,9 @@ func c14uRun(sc c14uCase) (vk.Result, error) {
 	}
 	res.NonTrivial = len(clis) >= 2
 	res.Labels = append(res.Labels, fmt.Sprintf("clients=%d", len(clis)))
+	if stalled {
+		res.Labels = append(res.Labels, "one-tunnel-connection-stalled-then-recovered")
+	}
 	vk.AddLabel("C14", "UDPRig", "datagrams-sent", int64(total))
 	vk.AddLabel("C14", "UDPRig", "datagrams-delivered", int64(delivered))
 	return res, nil
@@ -252,6 +305,24 @@ func TestVerif_C14_UDPRig(t *testing.T) {
 				l = append(l, size.Draw(rt, "size"))
 			}
 			sc.Clients = append(sc.Clients, l)
+		}
+		if rapid.IntRange(0, 1).Draw(rt, "shape") == 0 {
+			// a congested tunnel connection: client 0 has a few datagrams, the others many small ones
+			sc.Stall = rapid.SampledFrom([]int{30, 100, 250}).Draw(rt, "stall")
+			sc.NumConn = rapid.SampledFrom([]int{0, 0, 0, -1, 1, 2, 4}).Draw(rt, "numconn-stall")
+			small := rapid.OneOf(rapid.SampledFrom([]int{4, 5, 64, 100}), rapid.IntRange(4, 300))
+			sc.Clients = nil
+			for i, nc := 0, rapid.IntRange(2, 4).Draw(rt, "nclients-stall"); i < nc; i++ {
+				n := rapid.IntRange(4, 10).Draw(rt, "ndg0")
+				if i > 0 {
+					n = rapid.IntRange(40, 150).Draw(rt, "ndgN")
+				}
+				var l []int
+				for k := 0; k < n; k++ {
+					l = append(l, small.Draw(rt, "size"))
+				}
+				sc.Clients = append(sc.Clients, l)
+			}
 		}
 		return sc
 	}, c14uRun)
